@@ -50,6 +50,7 @@ fn main() {
     det::install_panic_hook(std::env::var("VCHECK_PANIC_VERBOSE").is_err());
     if let Some(file) = replay {
         let code = match id.as_str() {
+            "C01" => props::c01::replay(&file),
             "C09" => props::c09::replay(&file),
             "C11" => props::c11::replay(&file),
             _ => {
@@ -60,6 +61,7 @@ fn main() {
         std::process::exit(code);
     }
     let code = match id.as_str() {
+        "C01" => props::c01::run(tier),
         "C09" => props::c09::run(tier),
         "C11" => props::c11::run(tier),
         _ => {
